@@ -423,6 +423,10 @@ class ExitStack:
         :param context: the context
         :param base_context: the latest context we would adjust
         """
+        # an exit handler re-raised the very exception it received: there is nothing
+        # to stitch, and an exception must never become its own context
+        if exception is context:
+            return
         # we may have receive a child exception of the one that needs stitching
         # walk the contexts until we reach a root exception (no context) or our
         # own base context
